@@ -128,6 +128,17 @@ ApplyAllowed(i, b) ==
          /\ i.s \notin DOMAIN sess
          /\ LET sid == Pick(b.sid, used.sid) IN
               sid \notin used.sid /\ Commit(JoinFx(Cur, i.s, i.join, sid))
+    \* the handshake, message by message (C09)
+    [] i.op = "hello" ->
+         /\ i.s \notin DOMAIN sess
+         /\ LET sid == Pick(b.sid, used.sid) IN
+              sid \notin used.sid /\ Commit(HelloFx(Cur, i.s, i.hello, sid))
+    [] i.op = "auth" ->
+         /\ i.s \in Pending(Cur) /\ sess[i.s].hs.method # "nohello"
+         /\ LET sid == Pick(b.sid, used.sid) IN
+              sid \notin used.sid /\ Commit(AuthFx(Cur, i.s, i.resp, sid))
+    [] i.op = "hsdrop"  -> i.s \in Pending(Cur) /\ Commit(HsDropFx(Cur, i.s))
+    [] i.op = "intrude" -> i.s \in DOMAIN sess /\ sess[i.s].st = "rejected" /\ Commit(IntrudeFx(Cur, i.s))
     [] i.op = "subscribe" ->
          /\ Live(i.s)
          /\ LET id == Pick(b.sub, used.sub)
